@@ -1129,7 +1129,7 @@ EXC_TREE = {
     'NameError': 'Exception', 'OSError': 'Exception', 'FileExistsError': 'OSError', 'FileNotFoundError': 'OSError',
     'IsADirectoryError': 'OSError', 'PermissionError': 'OSError',
     'RuntimeError': 'Exception', 'NotImplementedError': 'RuntimeError', 'RecursionError': 'RuntimeError',
-    'StopIteration': 'Exception', 'TypeError': 'Exception', 'ValueError': 'Exception', 'UnicodeError': 'ValueError',
+    'StopIteration': 'Exception', 'TypeError': 'Exception', 'ValueError': 'Exception', 'UnicodeError': 'ValueError', 'UnicodeEncodeError': 'UnicodeError', 'UnicodeDecodeError': 'UnicodeError',
     'Warning': 'Exception', 'UserWarning': 'Warning', 'DeprecationWarning': 'Warning', 'RuntimeWarning': 'Warning',
     'FutureWarning': 'Warning',
 }
